@@ -1078,6 +1078,22 @@ class Generator:
 
     def next(self):
         rng = self.rng
+        # follow-up: an object that has just been produced by an operation (and joined the pool as that very object), or
+        # has just been changed in place, is what a caller typically uses next
+        run = getattr(self, "run", None)
+        fid = None
+        if run is not None and not self.fault_free:
+            if run.last_result_id is not None and run.last_result_id != getattr(self, "_followed", None):
+                fid = run.last_result_id
+            elif self.history and self.history[-1]["op"] == "mutate" and isinstance(self.history[-1].get("on"), int) and not getattr(self, "_followed_mut", False):
+                fid = self.history[-1]["on"]
+        if fid is not None and 0 <= fid < len(self.pool) and self.pool[fid]["kind"] in QOP_KINDS and not self.pool[fid].get("sampling") and rng.random() < 0.5:
+            self._followed = fid
+            self._followed_mut = True
+            st = {"op": "m", "on": fid, "name": rng.choice(["calc_proj_eq_constraint", "calc_proj_ineq_constraint", "calc_proj_physical", "to_var", "to_stacked_vector", "is_physical", "copy"]), "scribble": False}
+            self.history.append(st)
+            return [st]
+        self._followed_mut = False
         kinds = list(self.w)
         choice = rng.choices(kinds, [self.w[k] for k in kinds])[0]
         fn = getattr(self, "g_" + choice)
@@ -1681,6 +1697,7 @@ def run_seed(seed, tier, opts):
     run = Run(record)
     run.generating = True
     gen = Generator(rng, run.pool, tier, opts, pool0=run.pool0)
+    gen.run = run
     nsteps = rng.randint(5, 60 if tier == "thorough" else 40)
     viol = []
     saved = Settings.get_atol()
